@@ -93,6 +93,13 @@ def step (s : St) (toks : List String) : St × String :=
        | some s' => (s', "ok")
        | none => (s, "err"))
     | _, _, _, _, _ => (s, "bad-op")
+  | ["register-tok", id, en, smin, cap, fee] =>
+    match nat? id, parse01 en, nat? smin, dec? cap, dec? fee with
+    | some id, some en, some smin, some cap, some fee =>
+      (match registerTok s id { stakeEnabled := en, stakeMin := smin, stakeCap := cap, feeRate := fee } with
+       | some s' => (s', "ok")
+       | none => (s, "err"))
+    | _, _, _, _, _ => (s, "bad-op")
   | ["val", i, act] =>
     match nat? i, parse01 act with
     | some i, some act => ({ s with vals := (s.vals.filter (fun kv => kv.1 != i)) ++ [(i, act)] }, "ok")
